@@ -129,8 +129,9 @@ func init() {
 			{"cmpPublicPoint", "cmp Config.PublicPoint: body", bodyStmts("protocols/cmp/config/config.go", "Config.PublicPoint")},
 			{"frostKeygenChecks", "frost keygen round2.StoreBroadcastMessage: refusal conditions (no degree check)", guardsIn("protocols/frost/keygen/round2.go", "round2.StoreBroadcastMessage")},
 			{"frostKeygenVss", "frost keygen round3.StoreMessage: VSS check", stmtsMatching("protocols/frost/keygen/round3.go", "round3.StoreMessage", `expected|actual|shareFrom`)},
-			{"frostKeygenFinal", "frost keygen round3.Finalize: share, key, table, chain key", stmtsMatching("protocols/frost/keygen/round3.go", "round3.Finalize", `privateShare\.Add|publicKey = |verificationShares\[k\] = |polynomial\.Sum|ChainKey`)},
+			{"frostKeygenFinal", "frost keygen round3.Finalize: share, key, table, chain key", stmtsMatching("protocols/frost/keygen/round3.go", "round3.Finalize", `privateShare\.Add|publicKey = |verificationShares\[k\] = |polynomial\.Sum|^ChainKey`)},
 			{"frostKeygenConfig", "frost keygen round3.Finalize: the Config literals returned", compositesIn("protocols/frost/keygen/round3.go", "round3.Finalize", `^(Taproot)?Config$`)},
+			{"frostRefreshStart", "frost StartKeygenCommon: what happens to the caller's previous share / key before the rounds use them", stmtsMatching("protocols/frost/keygen/keygen.go", "StartKeygenCommon", `privateShare = |publicKey = |^refresh|^if privateShare`)},
 			{"doernerKeygenShares", "doerner keygen round2R/round2S.StoreMessage: share, public, chain key", append(stmtsMatching("protocols/doerner/keygen/round2R.go", "round2R.StoreMessage", `secretShare|public =|chainKey`),
 				stmtsMatching("protocols/doerner/keygen/round2S.go", "round2S.StoreMessage", `secretShare|public =|chainKey`)...)},
 			// ---- FROST signing
